@@ -1,14 +1,18 @@
 #!/bin/bash
-# Copy failing cases found against mutated scratch copies into regress/<ID>/ if (and only if) they replay without a
-# violation on the real tree (so they are regression inputs, not alarms). At most N per property, smallest files first.
+# Copy failing cases found against mutated scratch copies (seeded changes, hand-written mutants) into regress/<ID>/ if (and
+# only if) they replay without a violation on the real tree (so they are regression inputs, not alarms).  At most N per
+# property (smallest files first); replays run 10 at a time.
 N=${1:-8}
+one() {
+  f=$1; p=$(basename $(dirname $f)); b=$(basename $f)
+  [ -f regress/$p/s_$b ] && exit 0
+  [ $(stat -c %s $f) -gt 60000 ] && exit 0
+  if timeout 300 ./check $p --replay $f > /dev/null 2>&1; then echo "$f"; fi
+}
+export -f one
 for d in .work/scratch-run/replays/C*; do
-  p=$(basename $d); mkdir -p regress/$p; k=0
-  for f in $(ls -S -r $d/*.json 2>/dev/null); do
-    [ $k -ge $N ] && break
-    b=$(basename $f); [ -f regress/$p/$b ] && continue
-    [ $(stat -c %s $f) -gt 60000 ] && continue
-    if timeout 300 ./check $p --replay $f > /dev/null 2>&1; then cp $f regress/$p/s_$b; k=$((k+1)); fi
-  done
-  echo "$p +$k ($(ls regress/$p | wc -l) total)"
+  p=$(basename $d); mkdir -p regress/$p
+  have=$(ls regress/$p | wc -l)
+  ls -S -r $d/*.json 2>/dev/null | head -n $((N * 3)) | xargs -P 10 -n 1 bash -c 'one "$0"' | head -n $N | while read f; do cp $f regress/$p/s_$(basename $f); done
+  echo "$p $have -> $(ls regress/$p | wc -l)"
 done
